@@ -5,6 +5,7 @@ package h
 
 import (
 	"fmt"
+	"reflect"
 	"image"
 	"image/color"
 	"math"
@@ -59,6 +60,24 @@ func ShowPalette(p [64]color.RGBA) string {
 
 // ColorParts recovers (type, data) of an ivg.Color through its public API.
 func ColorParts(c ivg.Color) (typ int, data color.RGBA) {
+	// read the two (unexported) fields directly: the classification must not depend on the behaviour of the
+	// library's own encoders, which are under test
+	if v := reflect.ValueOf(c); v.Kind() == reflect.Struct {
+		t, d := v.FieldByName("typ"), v.FieldByName("data")
+		if t.IsValid() && d.IsValid() && d.Kind() == reflect.Struct && d.NumField() == 4 && t.Kind() >= reflect.Uint && t.Kind() <= reflect.Uint64 {
+			data = color.RGBA{uint8(d.Field(0).Uint()), uint8(d.Field(1).Uint()), uint8(d.Field(2).Uint()), uint8(d.Field(3).Uint())}
+			switch t.Uint() {
+			case 0:
+				return 0, data
+			case 1:
+				return 1, color.RGBA{R: data.R & 0x3f}
+			case 2:
+				return 2, color.RGBA{R: data.R & 0x3f}
+			case 3:
+				return 3, color.RGBA{data.R, data.G, data.B, 0}
+			}
+		}
+	}
 	if x, ok := c.Encode4(); ok {
 		return 0, color.RGBA{x[0], x[1], x[2], x[3]}
 	}
